@@ -42,9 +42,9 @@ PROPS = {
     "C03": {"units": ["U3", "U4", "U6", "U7", "U8", "U15"] + U9 + U16},
     "C14": {"units": ["U4", "U11"], "safety_units": ["U11"]},
     "C15": {"units": ["U6", "U16b", "U16d", "U16f", "U16h"]},
-    "C04": {"units": ["U6b", "U7"] + U9 + U16, "safety_units": ["U6", "U6b", "U7"] + U9 + U16},
+    "C04": {"units": ["U6b", "U7", "U15"] + U9 + U16, "safety_units": ["U6", "U6b", "U7"] + U9 + U16},
     "C05": {"units": ["U6b", "U8"], "safety_units": ["U8"]},
-    "C06": {"units": ["U2", "U4", "U6", "U7", "U8"]},
+    "C06": {"units": ["U2", "U4", "U6", "U7", "U8", "U15"]},
     "C07": {"units": ["U9c", "U9d", "U9g", "U9h", "U16g", "U16h", "U10b"]},
     "C08": {"units": ["U10", "U10b", "U17"] + U9, "safety_units": ["U17"]},
     "C09": {"units": ["U10", "U10b"] + U9, "safety_units": ["U10", "U10b"]},
